@@ -705,7 +705,8 @@ impl<D: Data<Elem = A>, A: Float + LinalgScalar + DivAssign + Sum> AffFuncBase<P
     pub fn distance<S: Data<Elem = A>>(&self, point: &ArrayBase<S, Ix1>) -> Array1<A> {
         let mut raw_dist = self.distance_raw(point);
         for (row, mut dist) in zip(self.mat.outer_iter(), raw_dist.outer_iter_mut()) {
-            let norm: A = row.iter().map(|&x| x.powi(2)).sum::<A>().sqrt();
+            // fold from +0.0: the sum of an empty float iterator is -0.0, which flips the sign of x / norm
+            let norm: A = row.iter().fold(A::zero(), |acc, &x| acc + x.powi(2)).sqrt();
             dist.map_inplace(|x| {
                 *x = if norm.is_zero() && x.is_zero() {
                     A::infinity()
